@@ -159,4 +159,4 @@ func runRulesConc(c RulesConcCase) *vkit.Outcome {
 
 var propRC = vkit.NewProp([]string{P}, "c20rulesconcurrent", genRulesConc, runRulesConc)
 
-func TestC20RulesConcurrent(t *testing.T) { propRC.Check(t) }
+func TestC20RulesConcurrent(t *testing.T) { propRC.CrashFile = true; propRC.Check(t) }
